@@ -366,9 +366,19 @@ def path_safe_assert(body, block):
             if want[3] is None:
                 return None
             held = False
+            def fold_len(t):
+                # `ARRAY.len()` of a fixed-size array field is its declared length
+                if isinstance(t, tuple) and t and t[0] == 'call' and t[1].startswith('core::slice::') and t[1].split('::')[-1] == 'len' and len(t[2]) == 1:
+                    a0 = t[2][0]
+                    while isinstance(a0, tuple) and a0 and a0[0] in ('ref', 'cast'):
+                        a0 = a0[1]
+                    n_ = _array_len_of_term(body, a0)
+                    if n_ is not None:
+                        return ('int', n_, None)
+                return t
             for cc in p.conds:
                 l = lib.literal(cc)
-                if l[0] == want[0] and _same(l[1], want[1]) and _same(l[2], want[2]) and l[3] is want[3]:
+                if l[0] == want[0] and _same(fold_len(l[1]), want[1]) and _same(fold_len(l[2]), want[2]) and l[3] is want[3]:
                     held = True
                     break
             if not held:
